@@ -99,6 +99,8 @@ func guardedBy(c *eng.Ctx, field, mu string, exceptions map[string]string, min i
 
 func runC02(c *eng.Ctx) {
 	p := c.P
+	findFilesReturnsItsOwnSlice(c)
+	c.Rule("ATOMIC", famT+".rollup{single flight}", func() { singleFlight(c, famT+".rolluping", famT+".rollup") })
 
 	// ---- 1/2. version lists ---------------------------------------------------------------------------------------
 	c.Rule("GUARDED-BY", fvT+"{current,activeVersions}", func() {
